@@ -9,12 +9,10 @@ UNITS = [
                   'otherwise AddPolicy.Begin.CallRule.(Err => Rollback | Ok => AddCommand.NewStorage.Commit); storage failure => no sink Commit', **RT),
     Kani(MT + 'c10_add_commands_parentless', fns=[Fn(T, 'add_commands', TI)], kind='bounded', bound='batch of one', cap_s=900, stubs=['evaluate_braid'],
          contract='existing graph: parentless command with a foreign id => InitError, nothing evaluated or stored; the graph own init => skipped (count 0)', **RT),
-    Kani(MT + 'c10_add_commands_creates_graph_via_init', fns=[Fn(T, 'add_commands', TI), Fn(T, 'init', TI)], kind='bounded', bound='batch of <= 1', cap_s=3000,
-         tiers=('thorough',), stubs=['evaluate_braid'], covers=1,
-         contract='missing graph: empty batch or foreign first command => InitError and no storage created; otherwise created through init exactly once before the sink commit', **RT),
 ]
 TRUSTED = KT_TRUSTED
-ASSUMPTIONS = ['"graph id = id of the init command" on the storage side (LinearStorageProvider::new_storage) is not under contract yet']
+ASSUMPTIONS = ['"graph id = id of the init command" on the storage side (LinearStorageProvider::new_storage) is not under contract yet',
+               'add_commands on a missing graph (creation through init inside add_commands) is not covered: the harness c10_add_commands_creates_graph_via_init did not finish within 35 min of CBMC time and is kept unregistered']
 EXPLANATION = 'Trace contracts on the real Transaction::init and the Prior::None arm of add_commands over all command shapes and callee outcomes.'
 MANIFEST = {
     'text': 'Proof at function level: init rejects every first-command shape other than (own id, parentless, with policy) before touching the policy store, the rule or the provider, '
